@@ -690,8 +690,11 @@ type c01HTTPWriter struct {
 	wrote *bool
 }
 
-func (w *c01HTTPWriter) WriteHeader(c int)           { *w.wrote = true; w.ResponseWriter.WriteHeader(c) }
-func (w *c01HTTPWriter) Write(b []byte) (int, error) { *w.wrote = true; return w.ResponseWriter.Write(b) }
+func (w *c01HTTPWriter) WriteHeader(c int) { *w.wrote = true; w.ResponseWriter.WriteHeader(c) }
+func (w *c01HTTPWriter) Write(b []byte) (int, error) {
+	*w.wrote = true
+	return w.ResponseWriter.Write(b)
+}
 
 // ---------------------------------------------------------------- concretiser
 
